@@ -76,7 +76,7 @@ func (eng *Engine) checkProperty(prop, tier string) int {
 	verif := *flagVerif
 	var cons []*Contract
 	for _, c := range eng.cs.Order {
-		if c.Trusted {
+		if c.Trusted || c.Opts["body"] == "skip" {
 			continue
 		}
 		if prop == "" || hasProp(c.Props, prop) {
@@ -244,6 +244,9 @@ func (eng *Engine) checkProperty(prop, tier string) int {
 			}
 			if ic := eng.cs.ByFunc["http2."+c]; ic != nil && ic.Trusted {
 				trustedSet["trusted in-package contract: "+c] = true
+			}
+			if ic := eng.cs.ByFunc["http2."+c]; ic != nil && ic.Opts["body"] == "skip" {
+				trustedSet["ASSUMED contract (body not verified yet): "+c] = true
 			}
 		}
 	}
